@@ -6,7 +6,8 @@ CONSTANTS
   MaxLen = 3
   MaxTime = 2
   RawOps = TRUE
-  IOAmts <- IO2
+  IOIns <- InsTS
+  IOOuts <- OutsTS
   Genesis <- Gen2
 VIEW View
 INVARIANTS SupplyEq BalanceWellFormed SupplyWellFormed HolderHasAccount NumsUnique
